@@ -226,6 +226,7 @@ func runC04(c *gen.Ctx) error {
 	c04Feedback(c)
 	c04LoopGen(c)
 	c04CliGen(c)
+	c04ArgsGen(c)
 	return nil
 }
 
